@@ -103,6 +103,8 @@ def cleanup():
 
 def reset_dirs():
     """empty archive/inputs/cache between cases (same process, same work dir)."""
+    if _WORKDIR is None or os.path.realpath(os.getcwd()) != os.path.realpath(_WORKDIR):
+        raise RuntimeError("reset_dirs outside the private work dir")
     for sub in ("archive", "inputs/named_files", "inputs/named_paths", "cache", "transfers", "data"):
         shutil.rmtree(sub, ignore_errors=True)
         os.makedirs(sub, exist_ok=True)
